@@ -564,8 +564,10 @@ class PortNamespace(collections.abc.MutableMapping, Port):
                 continue
 
             if isinstance(port, PortNamespace):
-                # If the name does not appear at the start of any of the include rules we continue:
-                if include and not any(rule.startswith(port_name) for rule in include):
+                # If no include rule names this namespace or a port nested in it, we continue. The rule has to match the
+                # name as a whole: `abc.x` selects nothing of a sibling namespace `ab`
+                prefix = f'{port_name}{self.NAMESPACE_SEPARATOR}'
+                if include and not any(rule == port_name or rule.startswith(prefix) for rule in include):
                     continue
 
                 # Determine the sub exclude and include rules for this specific namespace
